@@ -187,6 +187,7 @@ def correspond(ctx):
             '  a\n \n   b', '\ta\n\tb', ' \ta\n \tb\n', 'a\n\n', '  \n  x\n', 'a\r\n', '\x0c1', ' x\n  y\n z']
   ctx._c19_texts = texts
 
+  ctx.log('monitors done')
   # 1. physical lines / universal newlines against CPython's tokenizer (string literal contents)
   cases, used = [], []
   for t in texts:
@@ -207,6 +208,7 @@ def correspond(ctx):
   for i in bad[:3]:
     ctx.broken('correspondence:phys_lines differs from the tokenizer', 'text %r' % (used[i],))
 
+  ctx.log('phys done')
   # 2. _indent
   cases, used = [], []
   for t in texts:
@@ -221,6 +223,7 @@ def correspond(ctx):
   for i in bad[:3]:
     ctx.broken('correspondence:indent_re differs from codebuilder._indent', 'case %r' % (used[i],))
 
+  ctx.log('indent done')
   # 3. _dedent
   cases, used = [], []
   for t in texts:
@@ -234,6 +237,7 @@ def correspond(ctx):
   for i in bad[:3]:
     ctx.broken('correspondence:dedent_re differs from codebuilder._dedent', 'text %r' % (used[i],))
 
+  ctx.log('dedent done')
   # 4. _create_syntax_error_code (comment part, statement format, repr)
   cases, used = [], []
   for t in texts:
@@ -262,6 +266,7 @@ def correspond(ctx):
   for i in bad[:3]:
     ctx.broken('correspondence:stub_code differs from codebuilder._create_syntax_error_code', 'case %r' % (used[i],))
 
+  ctx.log('stub done')
   # 5. repr of str / int
   strs = [gen_text(rng) for _ in range(ctx.n(150, 3000))] + \
          [''.join(chr(rng.choice([rng.randrange(0, 0x300), rng.randrange(0x2000, 0x2100), rng.randrange(0xd7f0, 0xd800),
@@ -280,9 +285,528 @@ def correspond(ctx):
   ctx.bump('corr:repr strings', len(strs))
 
 
+# ------------------------------------------------------------------------------------------------
+# the end-to-end oracle through the real engine
+
+ROWS = [(3, 'x'), (-4, 'y$z'), (0, '')]           # (A, B)
+SOUND1 = '$A * 2 + 1'
+SOUND2 = '"v%s|%s" % ($A, $B)'
+LAZY = ('IF', 'ISERR', 'ISERROR', 'IFERROR', 'PEEK')
+UNIVERSAL_NL = re.compile(r'\r\n?')
+BARE_CR = re.compile(r'\r(?!\n)')
+
+
+def sound_values(rows):
+  return [a * 2 + 1 for a, _b in rows], ['v%s|%s' % (a, b) for a, b in rows]
+
+
+class Doc(object):
+  """A document with table T: data A (Int), B (Text); formula columns S1, X, S2 (X between the sound ones)."""
+  def __init__(self):
+    import logging
+    import engine
+    import useractions
+    logging.disable(logging.CRITICAL)
+    self.ua = useractions
+    self.e = engine.Engine()
+    self.e.load_empty()
+    self.apply(['InitNewDoc'])
+    self.apply(['AddTable', 'T', [
+      {'id': 'A', 'type': 'Int', 'isFormula': False},
+      {'id': 'B', 'type': 'Text', 'isFormula': False},
+      {'id': 'S1', 'type': 'Any', 'isFormula': True, 'formula': SOUND1},
+      {'id': 'X', 'type': 'Any', 'isFormula': True, 'formula': '1'},
+      {'id': 'S2', 'type': 'Any', 'isFormula': True, 'formula': SOUND2},
+    ]])
+    self.rows = list(ROWS)
+    self.apply(['BulkAddRecord', 'T', [None] * len(ROWS), {'A': [a for a, _ in ROWS], 'B': [b for _, b in ROWS]}])
+    self.nadd = 0
+
+  def apply(self, action):
+    return self.e.apply_user_actions([self.ua.from_repr(action)])
+
+  def column(self, col):
+    return list(self.e.fetch_table('T').columns[col])
+
+  def namespace(self):
+    return dict(self.e.gencode.usercode.__dict__)
+
+
+def cell(v):
+  """A cell as a comparable value: ('E', exception type name) or ('V', type name, value)."""
+  import objtypes
+  if isinstance(v, objtypes.RaisedException):
+    name = type(v.error).__name__ if v.error is not None else getattr(v, '_name', '?')
+    return ('E', name)
+  return ('V', type(v).__name__, v)
+
+
+class Rec(object):
+  def __init__(self, rid, a, b):
+    self.id = rid
+    self.A = a
+    self.B = b
+
+  def __getattr__(self, name):
+    raise AttributeError(name)
+
+
+def ref_dedent(text):
+  """Common leading blanks/tabs of the physical lines that hold something else; removed from every line."""
+  lines = text.split('\n')
+  margin = None
+  for l in lines:
+    body = l.lstrip(' \t')
+    if not body:
+      continue
+    ind = l[:len(l) - len(body)]
+    if margin is None:
+      margin = ind
+    else:
+      k = 0
+      while k < len(margin) and k < len(ind) and margin[k] == ind[k]:
+        k += 1
+      margin = margin[:k]
+  if not margin:
+    return text
+  return '\n'.join(l[len(margin):] if l.startswith(margin) else l for l in lines)
+
+
+def ref_translate(formula):
+  """Independent reading of a formula: the text as CPython reads it (universal newlines), common indentation
+  removed, `$name` -> `rec.name` wherever the tokenizer sees the operator `$` directly followed by a NAME token
+  (so never inside string or comment tokens).  Raises SyntaxError/tokenize.TokenError if it does not tokenize."""
+  text = ref_dedent(UNIVERSAL_NL.sub('\n', formula))
+  lines = text.split('\n')
+  starts = [0]
+  for l in lines:
+    starts.append(starts[-1] + len(l) + 1)
+  toks = list(tokenize.generate_tokens(io.StringIO(text).readline))
+  cut = []
+  for prev, t in zip(toks, toks[1:]):
+    if t.string == '$' and prev.end == t.start and prev.type in (tokenize.NAME, tokenize.NUMBER):
+      raise SyntaxError('`$` glued to the preceding name or number')
+  for t, nxt in zip(toks, toks[1:]):
+    if t.type == tokenize.OP and t.string == '$' and nxt.type == tokenize.NAME and nxt.start == t.end:
+      if not re.match(r'[a-zA-Z_]', nxt.string):
+        raise SyntaxError('`$` before a non-ASCII name')
+      cut.append(starts[t.start[0] - 1] + t.start[1])
+    elif t.type in (tokenize.OP, tokenize.ERRORTOKEN) and t.string == '$':
+      raise SyntaxError('stray `$`')
+  out = []
+  prev = 0
+  for c in cut:
+    out.append(text[prev:c])
+    out.append('rec.')
+    prev = c + 1
+  out.append(text[prev:])
+  return ''.join(out)
+
+
+def binds_rec(tree):
+  for n in ast.walk(tree):
+    if isinstance(n, ast.Name) and n.id == 'rec' and not isinstance(n.ctx, ast.Load):
+      return True
+    if isinstance(n, ast.arg) and n.arg == 'rec':
+      return True
+    if isinstance(n, (ast.FunctionDef, ast.AsyncFunctionDef, ast.ClassDef)) and n.name == 'rec':
+      return True
+    if isinstance(n, ast.alias) and (n.asname or n.name) == 'rec':
+      return True
+    if isinstance(n, ast.ExceptHandler) and n.name == 'rec':
+      return True
+    if isinstance(n, (ast.MatchAs, ast.MatchStar)) and n.name == 'rec':
+      return True
+    if isinstance(n, (ast.Global, ast.Nonlocal)) and 'rec' in n.names:
+      return True
+  return False
+
+
+def assigns_rec_attr(tree):
+  for n in ast.walk(tree):
+    if isinstance(n, ast.Attribute) and isinstance(n.ctx, ast.Store) and isinstance(n.value, ast.Name) \
+       and n.value.id == 'rec':
+      return True
+  return False
+
+
+def reference(formula, rows, namespace):
+  """('invalid', why) | ('unjudged', why) | ('values', [cell, ...]) -- what the formula text means by itself."""
+  if not formula.strip():
+    return ('unjudged', 'blank formula (type default)')
+  try:
+    src = ref_translate(formula)
+    tree = ast.parse(src)
+  except (SyntaxError, tokenize.TokenError, ValueError, IndentationError) as e:
+    return ('invalid', 'does not parse: %s' % (type(e).__name__,))
+  except RecursionError:
+    return ('unjudged', 'parser recursion limit')
+  if any(isinstance(n, ast.Name) and n.id in LAZY for n in ast.walk(tree)):
+    return ('unjudged', 'uses a lazily evaluated function')
+  if binds_rec(tree):
+    return ('unjudged', 'binds the name rec (Grist rejects some of these by its own rule)')
+  if assigns_rec_attr(tree):
+    return ('invalid', 'assigns to a column (Grist rule)')
+  body = list(tree.body)
+  if not body:
+    body = [ast.Pass()]
+  elif isinstance(body[-1], ast.Expr):
+    body[-1] = ast.copy_location(ast.Return(value=body[-1].value), body[-1])
+  elif not any(isinstance(n, ast.Return) for n in ast.walk(tree)):
+    return ('invalid', 'no return and the last statement is not an expression (Grist rule)')
+  fn = ast.FunctionDef(name='_ref_formula', args=ast.arguments(posonlyargs=[], args=[ast.arg(arg='rec'),
+                       ast.arg(arg='table')], kwonlyargs=[], kw_defaults=[], defaults=[]), body=body,
+                       decorator_list=[], type_params=[])
+  mod = ast.Module(body=[fn], type_ignores=[])
+  ast.fix_missing_locations(mod)
+  try:
+    code = compile(mod, '<reference>', 'exec')
+  except SyntaxError as e:
+    return ('invalid', 'compiler rejects it as a function body: %s' % (e.msg,))
+  except (RecursionError, ValueError, TypeError) as e:
+    return ('unjudged', 'compile: %r' % (e,))
+  ns = dict(namespace)
+  exec(code, ns)          # pylint: disable=exec-used
+  f = ns['_ref_formula']
+  out = []
+  for i, (a, b) in enumerate(rows):
+    try:
+      v = f(Rec(i + 1, a, b), None)
+      if type(v) not in (int, str, bool, float, type(None)):
+        return ('unjudged', 'returns a %s' % type(v).__name__)
+      out.append(('V', type(v).__name__, v))
+    except Exception as e:    # pylint: disable=broad-except
+      out.append(('E', type(e).__name__))
+  return ('values', out)
+
+
+SYNTAX_NAMES = ('SyntaxError', 'IndentationError', 'TabError')
+
+
+def mlstring_bug_variant(formula, width=4):
+  """The formula with `width` blanks removed from the whitespace-only lines inside multi-line string tokens
+  (what `indented_text.replace('\\n' + indent, '\\n')` does to lines that _indent left alone)."""
+  text = UNIVERSAL_NL.sub('\n', formula)
+  try:
+    toks = list(tokenize.generate_tokens(io.StringIO(text).readline))
+  except (SyntaxError, tokenize.TokenError):
+    return None
+  lines = text.split('\n')
+  changed = False
+  for t in toks:
+    if t.type in (tokenize.STRING, getattr(tokenize, 'FSTRING_MIDDLE', -1)) and t.end[0] > t.start[0]:
+      for ln in range(t.start[0], t.end[0]):        # 0-based indexes of the lines after the token's first one
+        l = lines[ln]
+        body = l if ln < t.end[0] - 1 else l[:t.end[1]]
+        if ln < t.end[0] - 1 and body.strip(' \t\x0c') == '' and l.startswith(' ' * width):
+          lines[ln] = l[width:]
+          changed = True
+  return '\n'.join(lines) if changed else None
+
+
+def same_cell(g, w):
+  if g[0] != w[0]:
+    return False
+  if g[0] == 'E':
+    return g[1] == w[1]
+  if g[1] != w[1]:
+    return False
+  return g[2] == w[2] or (g[2] != g[2] and w[2] != w[2])
+
+
+def judge(doc, formula, got_x, s1, s2):
+  """Compares the engine's columns with what the texts mean.  Returns None or (kind, what)."""
+  exp1, exp2 = sound_values(doc.rows)
+  if [cell(v) for v in s1] != [('V', 'int', v) for v in exp1] or \
+     [cell(v) for v in s2] != [('V', 'str', v) for v in exp2]:
+    return ('sound-column-changed', 'sound columns hold %r / %r, expected %r / %r' % (s1, s2, exp1, exp2))
+  got = [cell(v) for v in got_x]
+  ns = doc.namespace()
+  ref = reference(formula, doc.rows, ns)
+  if ref[0] == 'unjudged':
+    return None
+  if ref[0] == 'invalid':
+    if not all(g[0] == 'E' for g in got):
+      return ('invalid-formula-has-values', 'reference: %s; engine cells %r' % (ref[1], got))
+    return None
+  want = ref[1]
+  if all(same_cell(g, w) for g, w in zip(got, want)):
+    return None
+  if all(g[0] == 'E' and g[1] in SYNTAX_NAMES for g in got) and \
+     not all(w[0] == 'E' and w[1] in SYNTAX_NAMES for w in want):
+    # a formula that is valid by itself was turned into a syntax-error stub
+    return ('valid-formula-rejected', 'cells %r, the text means %r' % (got, want))
+  variant = mlstring_bug_variant(formula)
+  if variant is not None:
+    ref3 = reference(variant, doc.rows, ns)
+    if ref3[0] == 'values' and all(same_cell(g, w) for g, w in zip(got, ref3[1])):
+      return ('wrong-value:mlstring-blank-line',
+              'whitespace-only line inside a multi-line string lost 4 blanks: cells %r, the text means %r' % (got, want))
+  return ('valid-formula-wrong-value', 'cells %r, the text means %r' % (got, want))
+
+
+COMPILE_STAGE_HINT = 'accepted by ast.parse, rejected by the compiler as a function body'
+
+
+def classify_raise(formula, exc, raises):
+  """Names the cause of an escaping exception by repairing the input (causal probes).  `raises(f)` re-runs the
+  same action with another formula on a fresh document and returns the exception or None."""
+  import itertools
+  fixes = [('cr-line-ends', lambda f: '\r' in f, lambda f: UNIVERSAL_NL.sub('\n', f)),
+           ('form-feed', lambda f: '\x0c' in f, lambda f: f.replace('\x0c', '')),
+           ('nul', lambda f: '\x00' in f, lambda f: f.replace('\x00', ''))]
+  present = [fx for fx in fixes if fx[1](formula)]
+  for k in range(1, len(present) + 1):
+    for combo in itertools.combinations(present, k):
+      g = formula
+      for _n, _p, fix in combo:
+        g = fix(g)
+      if raises(g) is None:
+        first = combo[0][0]
+        return ('cr-line-ends' if first == 'cr-line-ends' else 'raises:' + first,
+                'repaired by removing: ' + ', '.join(c[0] for c in combo))
+  if isinstance(exc, RecursionError):
+    return 'raises:recursion', 'parser/compiler recursion limit'
+  if isinstance(exc, SyntaxError):
+    try:
+      src = ref_translate(formula)
+      tree = ast.parse(src)
+      parsed = True
+    except Exception:          # pylint: disable=broad-except
+      parsed = False
+    if parsed:
+      # no multi-line string, so that indenting the text by hand below is harmless
+      plain = not any(isinstance(n, (ast.Constant, ast.JoinedStr)) and '\n' in (ast.get_source_segment(src, n) or '')
+                      for n in ast.walk(tree))
+      try:
+        compile('def _f(rec, table):\n' + ''.join('  ' + l for l in re.split(r'(?<=\n)', src)) + '\n  pass\n',
+                '<probe>', 'exec')
+        rejected = False
+      except SyntaxError:
+        rejected = True
+      except Exception:        # pylint: disable=broad-except
+        rejected = False
+      if rejected and plain:
+        return 'raises:compile-stage', COMPILE_STAGE_HINT
+  return 'raises:other', 'no known cause'
+
+
+def run_formula(doc, formula, path):
+  """Applies one adversarial formula; returns (x cells, s1, s2)."""
+  if path == 'modify':
+    doc.apply(['ModifyColumn', 'T', 'X', {'formula': formula}])
+    col = 'X'
+  elif path == 'add':
+    doc.nadd += 1
+    col = 'X%d' % doc.nadd
+    doc.apply(['AddColumn', 'T', col, {'type': 'Any', 'isFormula': True, 'formula': formula}])
+  else:
+    raise ValueError(path)
+  x = doc.column(col)
+  s1, s2 = doc.column('S1'), doc.column('S2')
+  if path == 'add':
+    doc.apply(['RemoveColumn', 'T', col])
+  return x, s1, s2
+
+
+def check_one(doc, formula, path, fresh_raises):
+  """The oracle for one formula on `doc`.  Returns None or (kind, what)."""
+  try:
+    x, s1, s2 = run_formula(doc, formula, path)
+  except BaseException as e:       # pylint: disable=broad-except
+    if isinstance(e, (KeyboardInterrupt, SystemExit)):
+      raise
+    kind, why = classify_raise(formula, e, fresh_raises)
+    return (kind, '%s raised %s: %s [%s]' % ('ModifyColumn' if path == 'modify' else 'AddColumn',
+                                             type(e).__name__, str(e)[:120], why))
+  v = judge(doc, formula, x, s1, s2)
+  if v:
+    if '\r' in formula and v[0] != 'sound-column-changed':
+      # causal probe: the same text with the line ends CPython would read ("\r\n", "\r" -> "\n")
+      d2 = Doc()
+      try:
+        x2, t1, t2 = run_formula(d2, UNIVERSAL_NL.sub('\n', formula), path)
+        if judge(d2, UNIVERSAL_NL.sub('\n', formula), x2, t1, t2) is None:
+          return ('cr-line-ends', '%s with "\\r" line ends (fine with "\\n"): %s' % v)
+      except Exception:      # pylint: disable=broad-except
+        pass
+    return v
+  # the document keeps working: a data change recomputes the sound columns
+  a0 = doc.rows[0][0]
+  try:
+    doc.apply(['UpdateRecord', 'T', 1, {'A': a0 + 10}])
+    doc.rows[0] = (a0 + 10, doc.rows[0][1])
+    s1, s2 = doc.column('S1'), doc.column('S2')
+    exp1, exp2 = sound_values(doc.rows)
+    ok = (list(s1) == exp1 and list(s2) == exp2)
+    doc.apply(['UpdateRecord', 'T', 1, {'A': a0}])
+    doc.rows[0] = (a0, doc.rows[0][1])
+    if not ok:
+      return ('sound-column-stale', 'after UpdateRecord the sound columns hold %r / %r' % (s1, s2))
+  except BaseException as e:       # pylint: disable=broad-except
+    if isinstance(e, (KeyboardInterrupt, SystemExit)):
+      raise
+    return ('document-broken', 'UpdateRecord after the formula change raised %r' % (e,))
+  return None
+
+
+def fresh_raises_fn(path):
+  def raises(f):
+    d = Doc()
+    try:
+      run_formula(d, f, path)
+      return None
+    except BaseException as e:     # pylint: disable=broad-except
+      if isinstance(e, (KeyboardInterrupt, SystemExit)):
+        raise
+      return e
+  return raises
+
+
+# -- formula generator ---------------------------------------------------------------------------
+
+EXPRS = ['$A', '$A + 1', '$A * $A', 'len($B)', '$B.upper()', '"$A" + $B', "'$B' * 2", '[$A, 1][0]', '($A,\n 2)[1]',
+         '$B + "x" # $A', 'f"{$A}-{$B}"', 'max($A, 2)', '"a" if $A > 0 else "b"', '{"k": $A}["k"]', 'not $A',
+         '$A == 3', '-$A', '$A // 2', '1 / $A', 'int($B)', 'undefined_name', '$Nope', '$A + \\\n  1', '($A +\n1)',
+         '[\n1,\n2,\n][$A % 2]', 'str($A) + """\nline $A\n"""', '"""a\nb"""', "'''x\n  y\n'''", '"""$A\n$B"""',
+         '"""\n# not a comment\nreturn 5\n"""', "'a\\\nb'", '"""a\n    \nb"""', '"""a\n      \n  \n\nb"""',
+         'len("""\n        \n""")', '"é" + $B', 'f"""{$A}\n{$B}"""', "'it''s' + \"q\\\"\"", '$A;', 'rec.A + $A',
+         '"%s" % (  $A,\n)', 'sum(i for i in range($A % 5))', 'sorted($B)[0] if $B else ""', '(lambda v: v + 1)($A)',
+         '1 if True else\\\n2', '"\\N{BULLET}"', "'tab\there'", '$A # trailing \\', '[c for c in $B if c != "$"] == []']
+STMTS = ['x = {E}\nreturn x', 'x = {E}\nx', 'if $A > 0:\n  return {E}\nreturn {F}',
+         'if $A > 1:\n  y = {E}\nelse:\n  y = {F}\ny', 'for i in range(3):\n  if i == $A:\n    return i\nreturn -1',
+         'total = 0\nfor c in $B:\n  total += 1\ntotal', 'def g(v):\n  return v * 2\ng($A)',
+         'try:\n  return 1 // $A\nexcept ZeroDivisionError:\n  return 0', '# comment $A\n{E}', '{E}\n# last $A',
+         'x = 1\n\n\n  \nx + $A', 'if $A:\n\treturn 1\nreturn 2', '# just a comment', 'pass', 'return',
+         'return {E}', 'x = {E}  \ny = x\ny', 'import math\nmath.floor($A / 2)', 's = """\n  {E}\n"""\nlen(s)',
+         'class K:\n  v = 7\nK.v + $A', 'x = [\n  $A,\n    2,\n]\nx[0]', 'with open("/nonexistent") as fh:\n  pass\n1']
+INVALID = ['$A +', 'x = 1', '$A = 1', 'rec = 1\nreturn 1', 'if $A:', 'yield 1', '1 +\\', 'foo(', "'abc", '"""abc',
+           'x = (\n', '$', '$1', '$ A', "'\\N{BAD}'", '0777', '1_', 'a\xa0b', '$\xe9', '\xe9 = 1\n\xe9', '\ufeff$A', ')',
+           'return return', 'if 1:\nreturn 2', '  if 1:\n return 2', 'if 1:\n\treturn 1\n        return 2', '$A\n\\',
+           'lambda $x: 1', 'foo($bar=1)', 'def $f(): pass', '$A += 1\nreturn 1', 'for rec in []: pass\nreturn 1',
+           'x = $A\n  y = 2\ny', 'DOLLARx$y', 'a$b', '"$A', '# $A\n"', 'f"{$A"', "f'{}'", '(' * 30 + '1' + ')' * 30,
+           'print(a for a in b, c)', '$A ?', '`$A`', '$A <> 1', 'exec "x"', '1 if else 2', 'x = = 1', '@', ':=', '...',
+           'not', 'import', '*', '**$A']
+COMPILE_STAGE = ['await x', 'global table\n1', 'nonlocal x\n1', 'x = 1\nglobal x\nreturn x',
+                 'def f(a, a): pass\nreturn 1', 'class C:\n  return 1\nreturn 2', 'from x import *\n1',
+                 '__debug__ = 1\nreturn 1', '*a = [1]\nreturn a', 'from __future__ import annotations\n1',
+                 '[i async for i in x]', '[(y := 1) for y in z]',
+                 'try:\n  pass\nexcept:\n  pass\nexcept E:\n  pass\nreturn 1', 'def f():\n  nonlocal zz\nreturn 1',
+                 'match $A:\n  case x: return 1\n  case y: return 2\n']
+LEXICAL = ['\x0c$A', ' \x0c$A', 'if 1:\n  \x0c  return 1\nreturn 2', 'x = 1 \x0c\nx', '$A\x0c', '1\x00', "'\x00'",
+           '$A\x1a', 'x = 1\n\x0c\nx', '"""\x0c"""', '$A\x0b', '\x0b$A', '$A\x1c+1', '\x85$A']
+
+
+def restyle(rng, f, style):
+  """Line-end style and shared indentation."""
+  eol, ind = style
+  if ind:
+    f = ''.join(ind + l if l.strip() or rng.random() < 0.3 else l for l in re.split(r'(?<=\n)', f))
+  if eol == 'mixed':
+    f = re.sub('\n', lambda m: rng.choice(['\n', '\r\n', '\r']), f)
+  elif eol != '\n':
+    f = f.replace('\n', eol)
+  return f
+
+
+def mutate(rng, f):
+  if not f:
+    return f
+  k = rng.random()
+  i = rng.randrange(len(f))
+  if k < 0.35:
+    return f[:i]
+  if k < 0.6:
+    return f[:i] + f[i + 1:]
+  if k < 0.85:
+    return f[:i] + rng.choice(['(', ')', '"', "'", '\\', ':', '$', '#', '\n', ' ', '\t', '=', '\xe9', '\r', '"""']) + f[i:]
+  j = rng.randrange(len(f))
+  return f[:min(i, j)] + f[max(i, j):]
+
+
+def gen_formula(rng):
+  """Returns (formula, tag)."""
+  r = rng.random()
+  eol = rng.choice(['\n'] * 6 + ['\r\n', '\r\n', '\r', '\r', 'mixed'])
+  ind = rng.choice([''] * 5 + ['  ', '    ', '\t', ' '])
+  if r < 0.5:
+    if rng.random() < 0.5:
+      f = rng.choice(EXPRS)
+    else:
+      f = rng.choice(STMTS).replace('{E}', rng.choice(EXPRS)).replace('{F}', rng.choice(EXPRS[:22]))
+    if rng.random() < 0.3:
+      f = rng.choice(['\n', '\n\n', '  \n', '# lead\n']) + f
+    if rng.random() < 0.3:
+      f = f + rng.choice(['\n', '\n\n', '  ', '\n  \n', ' # end', '\n# end $A'])
+    tag = 'grammar'
+  elif r < 0.65:
+    base = rng.choice(EXPRS + STMTS).replace('{E}', rng.choice(EXPRS)).replace('{F}', '2')
+    f = mutate(rng, base)
+    if rng.random() < 0.3:
+      f = mutate(rng, f)
+    tag = 'mutated'
+  elif r < 0.8:
+    f = rng.choice(INVALID)
+    tag = 'invalid'
+  elif r < 0.87:
+    f = rng.choice(COMPILE_STAGE)
+    tag = 'compile-stage'
+  elif r < 0.93:
+    f = rng.choice(LEXICAL)
+    tag = 'lexical'
+  else:
+    f = gen_text(rng)
+    tag = 'random-text'
+  f = restyle(rng, f, (eol, ind))
+  f = f.replace('while', 'whil')          # never a loop that may not end
+  if '**' in f and tag != 'invalid':
+    f = f.replace('**', '*')
+  return f, tag + ('/cr' if BARE_CR.search(f) else '/crlf' if '\r' in f else '')
+
+
+LISTED = ['x = 1\rreturn x', 'foo(\rbar', '"""a\n    \nb"""', '  x = $A\r\n\r\n  x + 1', '\x0c$A', 'await x', '$A\r',
+          '# c\r$A', '1\x00', '  $A\r  + 1']
+
+
 def search(ctx):
-  pass
+  rng = ctx.rng
+  n = ctx.n(260, 6000)
+  formulas = [gen_formula(rng) for _ in range(n)] + [(f, 'listed') for f in LISTED]
+  doc = None
+  used = 0
+  path = 'modify'
+  for f, tag in formulas:
+    if doc is None or used >= 40:
+      doc = Doc()
+      used = 0
+      path = rng.choice(['modify', 'modify', 'add'])
+    used += 1
+    v = check_one(doc, f, path, fresh_raises_fn(path))
+    nontrivial = not re.match(r'\s*[0-9]*\s*\Z', f)
+    ctx.count(('engine', path, f), nontrivial=nontrivial, sample={'formula': f, 'path': path, 'tag': tag},
+              kind='engine:' + tag)
+    if v:
+      # confirm on a fresh document, so that the replay is self-contained
+      w = {'formula': f, 'path': path}
+      again = replay_full(w)
+      if again is None:
+        ctx.violation('history-dependent', 'on a used document: %s: %s; not reproduced on a fresh one' % v,
+                      {'formula': f, 'path': path, 'note': 'failed only after other formula changes'})
+      else:
+        ctx.violation(again[0], again[1], w)
+      ctx.bump('engine-outcome:' + (again or v)[0])
+      doc = None
+      if len(ctx.violations) > 400:
+        break
+    else:
+      ctx.bump('engine-outcome:ok')
+
+
+def replay_full(w):
+  doc = Doc()
+  return check_one(doc, w['formula'], w.get('path', 'modify'), fresh_raises_fn(w.get('path', 'modify')))
 
 
 def replay(ctx, w):
-  return None
+  v = replay_full(w)
+  return None if v is None else '%s: %s' % v
